@@ -179,6 +179,19 @@ func sigOK(v any) (applicable, ok bool) {
 	return false, false
 }
 
+// sigOKCustom: does a signed header's signature verify under the carried public key when the payload is the one of the
+// NON-DEFAULT provider (world.CustomPayloadProvider) — the verdict of a node configured with that provider?
+func sigOKCustom(v any) (applicable, ok bool) {
+	if x, is := v.(*types.SignedHeader); is {
+		p, err := world.CustomPayloadProvider(&x.Header)
+		if err != nil {
+			return true, false
+		}
+		return true, verifyKey(x.Signer.PubKey, p, x.Signature)
+	}
+	return false, false
+}
+
 // ---- encode / decode paths ---------------------------------------------------------------------------------------------
 
 // A path carries a value from the writer to the reader exactly as one part of the node does.
